@@ -200,6 +200,13 @@ Theorem C04_exactly_once_final :
     length (qvals (getq c q)) = qtok (getq c q).
 Proof. exact final_accounting. Qed.
 
+(* with RemoveAll anywhere in the program: nothing is delivered that was not popped and no
+   popped value is delivered twice; the other popped values are those RemoveAll discarded *)
+Theorem C04_at_most_once :
+  forall c0 c, initial c0 -> reachable c0 c ->
+    exists discarded, Permutation (delivered c ++ discarded) (popped c).
+Proof. exact at_most_once. Qed.
+
 (* ---- RemoveAll ---- *)
 
 Theorem C04_removeall :
@@ -370,4 +377,5 @@ Print Assumptions C04_backpressure_array.
 Print Assumptions C04_exactly_once.
 Print Assumptions C04_exactly_once_all_queues.
 Print Assumptions C04_exactly_once_final.
+Print Assumptions C04_at_most_once.
 Print Assumptions C04_removeall.
